@@ -12,6 +12,7 @@ import "runtime"
 type gateS struct{ flag bool }
 type gate = *gateS
 
+//go:norace
 func newGate() gate { return &gateS{} }
 
 //go:norace
